@@ -205,13 +205,13 @@ Definition reconstructZ (M : nat -> nat -> Z) (nrows ncols : nat)
 Definition scale_J (sc : nat -> nat -> Z) (J : jmat Z) : jmat Z :=
   map (fun e => (fst e, (sc (fst (fst e)) (snd (fst e)) * snd e)%Z)) J.
 
-(* present code: setters, scaling, THEN subtractions *)
+(* order of the source before fix commit 65ad24d: setters, scaling, THEN subtractions *)
 Definition totals_present (M sc : nat -> nat -> Z) (nrows ncols : nat)
            (fg fnz rg rnz : list (list nat)) (subs : list subtraction) : jmat Z :=
   fold_left (apply_sub Z 0%Z Z.add Z.sub) subs
             (scale_J sc (set_colors Z 0%Z Z.add M nrows ncols fg fnz rg rnz)).
 
-(* repaired code: setters, subtractions, then scaling *)
+(* repaired (current) order: setters, subtractions, then scaling *)
 Definition totals_repaired (M sc : nat -> nat -> Z) (nrows ncols : nat)
            (fg fnz rg rnz : list (list nat)) (subs : list subtraction) : jmat Z :=
   scale_J sc (reconstructZ M nrows ncols fg fnz rg rnz subs).
